@@ -733,7 +733,16 @@ func c10CheckFlight(e *c10Expect, dgs [][]byte) (fails []c10Fail, pkts []*c10Pkt
 			(p0.CryptoLength > 0 && cb == uint64(p0.CryptoLength) && pi.CryptoLength != p0.CryptoLength)
 		ignoresI := (pi.CryptoLength > 0 && cb > uint64(pi.CryptoLength)) ||
 			(pi.PacketSize > 0 && crypto > 0 && p.HdrLen+minCryptoFrame+16 > pi.PacketSize && (e.MaxPacket == 0 || pi.PacketSize <= e.MaxPacket))
-		if len(pf) > 0 && !isFlight && pi != p0 && len(planChecks(p0)) == 0 && (follows0 || ignoresI) {
+		// ... and a datagram whose only fault under entry i is the (open) "re-framing builder
+		// overshoots a cap that was applied" is not evidence either, even if its size happens
+		// to equal entry 0's PacketSize
+		onlyOvershoot := true
+		for _, f := range pf {
+			if f.key != "size-exact/frames-exceed" && !strings.HasPrefix(f.key, "size-max/") && !strings.HasPrefix(f.key, "size-frames/") {
+				onlyOvershoot = false
+			}
+		}
+		if len(pf) > 0 && !isFlight && pi != p0 && len(planChecks(p0)) == 0 && (ignoresI || (follows0 && !onlyOvershoot)) {
 			pf = append([]c10Fail{}, c10Fail{"plan-index", fmt.Sprintf("datagram %d follows InitialPackets[0] = %+v, not InitialPackets[%d] = %+v: packet %d bytes, datagram %d bytes, %d CRYPTO bytes", i, planFor(0), min(i, len(ips.InitialPackets)-1), planFor(i), p.PacketLen, len(dg), cb)})
 		}
 		fails = append(fails, pf...)
@@ -753,7 +762,7 @@ func c10CheckFlight(e *c10Expect, dgs [][]byte) (fails []c10Fail, pkts []*c10Pkt
 			}
 		}
 		// second, external reader (it takes the truncated packet number as the packet number)
-		if _, err := clienthellod.UnmarshalQUICClientInitialPacket(dg); err != nil && p.PN < 1<<(8*uint(p.PNLen)) {
+		if _, err := clienthellod.UnmarshalQUICClientInitialPacket(dg); err != nil && p.PN < 1<<(8*uint(p.PNLen)) && p.Version == 1 { // clienthellod knows QUIC v1 only
 			fail("clienthellod", "datagram %d: clienthellod does not decode it: %v", i, err)
 		}
 	}
@@ -945,6 +954,88 @@ func c10DialSrv(sp *quic.QUICSpec, conf *quic.Config, srvConf *quic.Config, blac
 		err = berr
 	}
 	return
+}
+
+// c10WireFlightCase prints a whole dial's first flight as a FlightCase of coq/UPacker/Run.v
+// (every observable read from the wire by the independent observer). Flights the model's
+// inputs cannot be read off the wire for are skipped (false).
+func c10WireFlightCase(w *bufio.Writer, sp *quic.QUICSpec, e *c10Expect, dgs [][]byte, pkts []*c10Pkt) bool {
+	ips := &sp.InitialPacketSpec
+	if len(pkts) == 0 || len(pkts) != len(dgs) || len(dgs) >= 10 {
+		return false
+	}
+	bk := ""
+	switch b := ips.FrameBuilder.(type) {
+	case nil:
+		bk = "BPass"
+	case quic.QUICFrames:
+		bk = "BEx"
+		if len(b) == 0 {
+			bk = "BPass"
+		}
+	case *quic.QUICRandomFrames:
+		bk = c10BRandom(*b)
+	case *quic.QUICMultiDatagramFrames:
+		bk = c10BRandom(b.PerDatagram...)
+	default:
+		return false
+	}
+	planFor := func(i int) quic.InitialPacketPlan { return c10PlanFor(ips.InitialPackets, i) }
+	var plens []int64
+	var obs []string
+	end := uint64(0)
+	for i, p := range pkts {
+		if p.BadFrame != "" || p.Payload == nil {
+			return false
+		}
+		pl := len(p.Payload)
+		if ps := planFor(i).PacketSize; ps > 0 && p.PacketLen == ps {
+			pl = len(bytes.TrimRight(p.Payload, "\x00"))
+		}
+		plens = append(plens, int64(pl))
+		var fr []string
+		lo, hi, cb := ^uint64(0), uint64(0), uint64(0)
+		for _, f := range p.Frames {
+			if f.Type == 6 {
+				if bk == "BPass" {
+					fr = append(fr, u.Pair(u.ZU(f.Off), u.ZU(f.Len)))
+				}
+				lo, hi, cb = min(lo, f.Off), max(hi, f.Off+f.Len), cb+f.Len
+			}
+		}
+		if cb == 0 || hi-lo != cb || lo != end {
+			return false
+		}
+		end = hi
+		if bk != "BPass" {
+			fr = []string{u.Pair(u.ZU(lo), u.ZU(cb))} // the one contiguous slice the packer popped
+		}
+		obs = append(obs, u.App("DG", u.Z(p.PN), u.Z(int64(p.PNLen)), u.Z(int64(p.HdrLen)), u.List(fr), u.Z(int64(p.LengthField)),
+			u.Z(int64(p.PacketLen)), u.Z(int64(len(dgs[i]))), u.Z(int64(i+1)), "false"))
+	}
+	var plans []string
+	for _, pl := range ips.InitialPackets {
+		plans = append(plans, u.Pair(u.Z(int64(pl.CryptoLength)), u.Z(int64(pl.PacketSize))))
+	}
+	var lens []int64
+	for _, l := range ips.InitPacketNumberLengths {
+		lens = append(lens, int64(l))
+	}
+	tokn := pkts[0].Token
+	expl := "None"
+	if e.ExplTokSet {
+		expl = "(Some " + c10OptHex(e.ExplToken != nil, e.ExplToken) + ")"
+	}
+	tail := []byte{}
+	if !e.ExplTokSet && len(tokn) > len(ips.ClientTokenPrefix) && max(ips.ClientTokenLength, len(ips.ClientTokenPrefix)) > 0 {
+		tail = tokn[len(ips.ClientTokenPrefix):]
+	}
+	fmt.Fprintf(w, "CASE 1 %s\n", u.App("FlightCase",
+		u.Z(int64(len(pkts[0].DCID))), u.Z(int64(len(pkts[0].SCID))), u.ZU(ips.InitPacketNumber), u.ZU(ips.InitPacketNumber), u.ZList(lens), u.Z(int64(ips.InitPacketNumberLength)),
+		expl, u.Z(int64(ips.ClientTokenLength)), u.Hex(ips.ClientTokenPrefix), u.Hex(tail), c10OptHex(e.ConfToken != nil, e.ConfToken),
+		bk, u.List(plans), u.Z(int64(sp.UDPDatagramMinSize)), u.Z(int64(e.MaxPacket)), u.ZU(end), u.ZList(plens),
+		u.ZU(ips.InitPacketNumber), c10OptHex(len(tokn) > 0, tokn), "[]", u.List(obs)))
+	return true
 }
 
 // ---- Version Negotiation: one Dial, two connections ---------------------------------------
@@ -1230,6 +1321,14 @@ func runSimInitial(w *bufio.Writer, seed uint64, n int, args []string) {
 			fails, pkts, tok := c10CheckFlight(e, fl.Datagrams)
 			for _, f := range fails {
 				rep.fail(kk+f.key, f.desc, detail())
+			}
+			// the same flight as a correspondence case: the model replays what the REAL dial
+			// (UTransport.dial, doDial, newUClientConnection, the connection's send loop) put
+			// on the wire
+			if c10SpecInvalid(sp, e.MaxPacket) == "" {
+				if c10WireFlightCase(w, sp, e, fl.Datagrams, pkts) {
+					dist["FlightCase"]++
+				}
 			}
 			if !blackhole && !fl.Completed {
 				benign := true
